@@ -3,11 +3,12 @@ import GuppyVerif.Gen.C22FrozenList
 /-! # C22 — specification vocabulary -/
 namespace GuppyVerif.TraceOwn
 
-/-- The methods of CPython 3.12's `list` that mutate the receiver (fixed list; the check re-derives it on
+/-- The methods of CPython 3.12's `list` that can change the receiver — `__init__` (re-initialisation of an existing
+    list) included (fixed list; the check re-derives it on
     every run by calling every attribute of `list` on a sample list and comparing before/after). -/
 def mutatingListMethods : List String :=
   ["append", "clear", "extend", "insert", "pop", "remove", "reverse", "sort",
-   "__setitem__", "__delitem__", "__iadd__", "__imul__"]
+   "__setitem__", "__delitem__", "__iadd__", "__imul__", "__init__"]
 
 /-- an object that has to be consumed: not droppable and (by the tracer's flag) not used -/
 def Leaky (s : State) (id : Nat) : Prop :=
